@@ -219,6 +219,10 @@ def ROUNDUP(number, digits):
     if utils.any_is_error((number, digits)):
         return error.VALUE
     sign = 1 if number > 0 else -1
+    if digits < 0:
+        # 10**digits is not exact (300000 * 10**-5 is 3.0000000000000004): divide by the exact unit instead
+        unit = 10**-digits
+        return sign * math.ceil(abs(number) / float(unit)) * unit
     return sign * (math.ceil(abs(number) * 10**digits)) / 10**digits
 
 
@@ -229,6 +233,9 @@ def ROUNDDOWN(number, digits):
     if utils.any_is_error((number, digits)):
         return error.VALUE
     sign = 1 if number > 0 else -1
+    if digits < 0:
+        unit = 10**-digits
+        return sign * math.floor(abs(number) / float(unit)) * unit
     return sign * (math.floor(abs(number) * 10**digits)) / 10**digits
 
 
